@@ -413,7 +413,8 @@ def c06(tier, seed):
     def ops(c):
         o = [{"op": "synth", "strategy": RND, "n": pipeline.CAP, "exhaust": True, "timeout": 30},
              {"op": "sample", "strategy": RND, "n": 1, "timeout": 30}]
-        if rejection_free(c):
+        if rejection_free(c) and not any(k["c"] == "Exclude" for k in common._all_cons(c["block"])):
+            # (an Exclude on the source of a crossed derived factor is enforced by rejection: keys outnumber sequences)
             # the number of valid sequences, established independently of RandomGen (IterateSATGen's exhausted set proved
             # equal to the specification's valid set): without a rejection step every key of RandomGen's key space is one
             # returned sequence, so a key space of another size makes it stop early, repeat itself or never stop
@@ -607,7 +608,10 @@ def c09(tier, seed):
                 if known:
                     for oi, name in ((1, SAT), (2, RND)):
                         o = r.obs[oi] if oi < len(r.obs) else None
-                        if o and o["status"] == "returned" and (canon(r.case), name) not in avail and not partially_crossed_weighted(r.case):
+                        # ... unless that sampler returned INVALID sequences (then its set is wrong, which C01/C02/C04/C06 report
+                        # and known findings such as KF10 explain): only a sampler that delivered too FEW is a counting matter
+                        if (o and o["status"] == "returned" and (canon(r.case), name) not in avail
+                                and not partially_crossed_weighted(r.case) and all(v == "ok" for v in r.verdicts.get(oi, []))):
                             avail[(canon(r.case), name)] = known[0]
             todo = [r.case for r in res if any((canon(r.case), s) in avail for s in (SAT, RND))]
 
